@@ -49,11 +49,31 @@ BROKEN_DEP5 = {
     "missing-copyright": DEP5_HEAD + "Files: *\nLicense: MIT\n", "missing-license": DEP5_HEAD + "Files: *\nCopyright: 2020 J\n",
     "bad-escape": DEP5_HEAD + "Files: src/\\q*\nCopyright: 2020 J\nLicense: MIT\n", "bad-synopsis": DEP5_HEAD + "Files: *\nCopyright: 2020 J\nLicense: MIT AND AND\n",
     "empty": "", "only-header": DEP5_HEAD, "no-header": "Files: *\nCopyright: 2020 J\nLicense: MIT\n",
+    # fields that are present but hold nothing / odd values (python-debian accepts most of these)
+    "empty-copyright": DEP5_HEAD + "Files: *\nCopyright:\nLicense: MIT\n", "blank-copyright": DEP5_HEAD + "Files: *\nCopyright: \n .\nLicense: MIT\n",
+    "empty-license": DEP5_HEAD + "Files: *\nCopyright: 2020 J\nLicense:\n", "empty-files": DEP5_HEAD + "Files:\nCopyright: 2020 J\nLicense: MIT\n",
+    "duplicate-field": DEP5_HEAD + "Files: *\nCopyright: 2020 J\nCopyright: 2021 K\nLicense: MIT\n",
+    "standalone-license-paragraph": DEP5_HEAD + "Files: *\nCopyright: 2020 J\nLicense: MIT\n\nLicense: MIT\n text of the licence\n",
+    "two-headers": DEP5_HEAD + DEP5_HEAD + "Files: *\nCopyright: 2020 J\nLicense: MIT\n", "crlf": (DEP5_HEAD + "Files: *\nCopyright: 2020 J\nLicense: MIT\n").replace("\n", "\r\n"),
     "license-with-text": DEP5_HEAD + "Files: *\nCopyright: 2020 J\nLicense: MIT\n Permission is hereby granted\n .\n more\n",
 }
 COMMANDS = ["lint", "lint-json", "lint-file", "spdx", "annotate", "annotate-terminator", "download-all", "convert-dep5", "supported-licenses"]
 HOSTILE_GLOBS = ["src/data\\", "\\", "a\\\\\\", "**\\", "[", "[a-", "?", "", " ", "*" * 60, "a/../b", "/abs/path", "./x", "a//b", "**/**/**", "\\\\", "{a,b}", "a\nb", "\u0000",
                  "é/ü", "~", "$HOME", "%s", "(", ")", "(?P<x>", "+", "^$", "|", "a|b"]
+
+
+# files the VCS layer reads on the tool's behalf, inside a Git repository
+GITMODULES = {
+    "valueless-path": b'[submodule "x"]\n\tpath\n\turl = https://example.com/x\n', "empty-path": b'[submodule "x"]\n\tpath =\n',
+    "invalid-utf8-path": b'[submodule "x"]\n\tpath = sub\xff\xfe\n', "invalid-utf8-name": b'[submodule "x\xff"]\n\tpath = src\n',
+    "broken-syntax": b'[submodule "x"\n path = = \n', "empty-file": b"", "path-with-newline": b'[submodule "x"]\n\tpath = "a\\nb"\n',
+    "nul-byte": b'[submodule "x"]\n\tpath = su\x00b\n', "absolute-path": b'[submodule "x"]\n\tpath = /etc\n', "dotdot-path": b'[submodule "x"]\n\tpath = ../..\n',
+    "duplicate-path": b'[submodule "x"]\n\tpath = src\n\tpath = src\n', "path-is-covered-dir": b'[submodule "x"]\n\tpath = src\n',
+    "only-path-key-elsewhere": b'[other]\n\tpath = src\n\tmy.path = x\n', "crlf": b'[submodule "x"]\r\n\tpath = src\r\n', "long-value": b'[submodule "x"]\n\tpath = ' + b"p" * 70000 + b"\n",
+    "bom": b'\xef\xbb\xbf[submodule "x"]\n\tpath = src\n',
+}
+GITIGNORE = {"invalid-utf8": b"\xff\xfe*\n", "everything": b"*\n", "lone-bang": b"!\n", "lone-backslash": b"\\\n", "open-bracket": b"[\n", "nul": b"a\x00b\n",
+             "long-line": b"x" * 70000 + b"\n", "crlf": b"src\r\n", "ignores-config": b"REUSE.toml\nLICENSES\n.reuse\n"}
 
 
 def toml_with(repl: dict) -> str:
@@ -84,7 +104,7 @@ BASE = {"src/a.py": H + "a = 1\n", "src/b.c": "int b;\n", "LICENSES/MIT.txt": "m
 
 def bounds(tier, seed):
     return {"toml_keys": KEYS, "toml_shapes": list(SHAPES), "toml_pairs": tier == "thorough", "broken_toml": list(BROKEN_TOML), "broken_dep5": list(BROKEN_DEP5),
-            "byte_classes": list(byte_classes()), "commands": COMMANDS, "io_fault_errnos": ["EACCES", "ENOENT", "EISDIR", "EIO"],
+            "gitmodules_shapes": list(GITMODULES), "gitignore_shapes": list(GITIGNORE), "byte_classes": list(byte_classes()), "commands": COMMANDS, "io_fault_errnos": ["EACCES", "ENOENT", "EISDIR", "EIO"],
             "io_faults": "every single k-th open" + (" and every pair" if tier == "thorough" else "")}
 
 
@@ -127,6 +147,10 @@ def cases(tier, seed):
         yield {"k": "dep5", "name": name}
     for combo in ("dep5+root-toml", "dep5+nested-toml", "dep5-invalid-utf8", "dep5-is-directory", "toml-is-directory"):
         yield {"k": "dep5", "name": combo}
+    for name in GITMODULES:
+        yield {"k": "vcsmeta", "file": ".gitmodules", "name": name}
+    for name in GITIGNORE:
+        yield {"k": "vcsmeta", "file": ".gitignore", "name": name}
     for cls in byte_classes():
         for place in ("header", "dot-license"):
             yield {"k": "bytes", "cls": cls, "place": place}
@@ -252,6 +276,26 @@ def ev_broken_toml(c) -> R:
     return r
 
 
+def ev_vcsmeta(c) -> R:
+    from .. import gitrepo
+
+    r = R()
+    content = (GITMODULES if c["file"] == ".gitmodules" else GITIGNORE)[c["name"]]
+    for cmd in COMMANDS:
+        root = fresh_dir("c16")
+        rec = dict(BASE)
+        rec["REUSE.toml"] = toml_with({})
+        rec[c["file"]] = {"hex": content.hex()} if content else {"empty": True}
+        materialise(root, rec)
+        gitrepo.init(root)
+        out = run_command(cmd, root)
+        judge(r, out, cmd, f"Git repository whose {c['file']} is {c['name']} ({content[:60]!r})", f"vcsmeta|{c['file']}|{c['name']}")
+    r.evals = len(COMMANDS)
+    r.outcome = "vcsmeta"
+    r.tags.append("vcsmeta")
+    return r
+
+
 def ev_dep5(c) -> R:
     r = R()
     for cmd in COMMANDS:
@@ -263,7 +307,8 @@ def ev_dep5(c) -> R:
         if n in BROKEN_DEP5:
             rec[cfg] = BROKEN_DEP5[n] if BROKEN_DEP5[n] else {"empty": True}
             must = n not in ("license-with-text", "only-header", "empty", "no-header", "bad-escape", "missing-files")
-            if n in ("only-header", "empty", "no-header", "bad-escape", "missing-files", "missing-copyright", "missing-license", "not-deb822", "bad-synopsis"):
+            if n in ("only-header", "empty", "no-header", "bad-escape", "missing-files", "missing-copyright", "missing-license", "not-deb822", "bad-synopsis",
+                     "empty-copyright", "blank-copyright", "empty-license", "empty-files", "duplicate-field", "standalone-license-paragraph", "two-headers", "crlf"):
                 must = False  # whether python-debian accepts these is not ours to say: only "no crash, defined exit status"
         elif n == "dep5+root-toml":
             rec[cfg] = DEP5_HEAD + "Files: *\nCopyright: 2020 J\nLicense: MIT\n"
@@ -391,7 +436,7 @@ def ev_io(c) -> R:
     return r
 
 
-_EV = {"glob": ev_glob, "toml": ev_toml, "broken-toml": ev_broken_toml, "dep5": ev_dep5, "bytes": ev_bytes, "licenses": ev_licenses, "io": ev_io}
+_EV = {"vcsmeta": ev_vcsmeta, "glob": ev_glob, "toml": ev_toml, "broken-toml": ev_broken_toml, "dep5": ev_dep5, "bytes": ev_bytes, "licenses": ev_licenses, "io": ev_io}
 
 
 def evaluate(c) -> R:
@@ -413,7 +458,7 @@ def run(tier, seed):
     return finish(
         ID, "fault_enumeration", MODULE, tier, seed, st, t0,
         rule=("every REUSE.toml key x every TOML value shape (root and nested file; pairs of keys: one key row per seed in quick, all in thorough), "
-              "15 structurally broken TOML files, 10 broken dep5 files + conflicts, 11 hostile byte classes x {header, .license}, 5 LICENSES/ oddities, and an "
+              "15 structurally broken TOML files, 18 broken or odd dep5 files + conflicts, 16 .gitmodules and 9 .gitignore shapes inside a Git repository, 11 hostile byte classes x {header, .license}, 5 LICENSES/ oddities, and an "
               "I/O fault (4 errnos) injected at the k-th open of a project file for every k (and every pair in thorough), each under 8 subcommands (4 for "
               "I/O faults); oracle: exit status in {0,1,2}, no escaping exception, configuration errors exit 2 naming the file, other files still reported; "
               "non-trivial = the malformed value / fault was actually reached"),
